@@ -21,12 +21,12 @@ import ledger_corr
 
 PROP_MODULE = "NeverModel.Props.C16"
 PINNED_MODULE = "NeverModel.Props.C16Pinned"
-REQUIRED = ["Never.C16.destructor_table_complete_partial", "Never.C16.discardable_symbols_released_partial",
+REQUIRED = ["Never.C16.destructor_table_complete_partial", "Never.C16.discardable_symbols_released_partial", "Never.C16.discardable_symbols_released",
             "Never.C16.handed_out_not_released", "Never.C16.no_destructor_on_unowned", "Never.C16.rule_actions_consume_rhs",
             "Never.C16.ledger_balanced", "Never.C16.sweep_frees_exactly_unreachable", "Never.C16.gc_delete_releases_all"]
 # the exception lists of Props/C16.lean (kept in step with it; the Lean side is what is proved)
-KNOWN_MISSING = ["param_decl", "param_seq", "except"]
-KNOWN_LEAKING = ["param_seq"]
+KNOWN_MISSING = ["param_decl", "except"]
+KNOWN_LEAKING = []
 
 # sources with a syntax error placed right after the named nonterminal (bison then discards it)
 ROW_TEMPLATES = {
